@@ -486,3 +486,114 @@ def rad2(p, res, prefixes):
 
 def _short(pl):
     return repr(pl).replace(" ", "")
+
+
+# ------------------------------------------------------------------ UNIT-1
+# limbs (L), rows (R), bits (B):  size -> L, dnum -> R, dsize -> L/R (limbs per row), base2k -> B/L, k / max_k -> B
+_UNIT = {"size": (1, 0, 0), "max_size": (1, 0, 0), "dnum": (0, 1, 0), "dsize": (1, -1, 0), "base2k": (-1, 0, 1), "k": (0, 0, 1), "max_k": (0, 0, 1), "effective_k": (0, 0, 1)}
+_UNIT_NAMES = ("limbs", "rows", "bits")
+
+
+def _uadd(a, b):
+    return tuple(x + y for x, y in zip(a, b))
+
+
+def _unit_key(k, unit):
+    from .sym import Poly
+    return _unit(Poly(dict(k)), unit)
+
+
+def _unit_atom(a, unit):
+    if a[0] != "f":
+        return None
+    nm, args = a[1], a[2]
+    if nm in unit and len(args) == 1:
+        return unit[nm]
+    if nm in ("div_ceil", "Div") and len(args) == 2:
+        x, y = _unit_key(args[0], unit), _unit_key(args[1], unit)
+        if x is None or y is None:
+            return None
+        x = (0, 0, 0) if x == "c" else x
+        y = (0, 0, 0) if y == "c" else y
+        return _uadd(x, tuple(-v for v in y))
+    if nm in ("min", "max", "saturating_sub", "next_multiple_of") and len(args) == 2:
+        x, y = _unit_key(args[0], unit), _unit_key(args[1], unit)
+        if x is None or y is None:
+            return None
+        if x == "c":
+            return y
+        if y == "c":
+            return x
+        return x if x == y else None
+    return None
+
+
+def _unit(pl, unit):
+    """unit of a polynomial: exponent vector over (limbs, rows, bits), "c" for a constant, None when any part is unknown or the terms disagree
+    (a constant summand takes the unit of its neighbours: `dnum - 1` rows)"""
+    ds = set()
+    for mono, c in pl.t.items():
+        d = (0, 0, 0)
+        for a in mono:
+            da = _unit_atom(a, unit)
+            if da is None:
+                return None
+            if da != "c":
+                d = _uadd(d, da)
+        ds.add(d if mono else "c")
+    real = {d for d in ds if d != "c"}
+    if not real:
+        return "c"
+    if len(real) > 1:
+        return None
+    return real.pop()
+
+
+def _unit_str(u):
+    return " * ".join("%s^%d" % (n, e) if e != 1 else n for n, e in zip(_UNIT_NAMES, u) if e) or "dimensionless"
+
+
+def unit1(p, res, prefixes, rule="UNIT-1"):
+    """comparisons, `min` and `max` between two quantities whose units are known (limb counts, row counts of a gadget key, bit precisions; limbs = rows * dsize,
+    bits = limbs * base2k): both sides have the same unit.  A limb count clamped by `key.dnum()` drops (dsize - 1) / dsize of the limbs as soon as dsize > 1.
+    Where the function compares a `dsize()` with the constant 1, rows and limbs are the same unit."""
+    from .sym import Sym, Poly
+    n = 0
+    for f in sorted(p.lib_fns(), key=lambda x: x.uid):
+        if f.is_test() or not f.uid.startswith(prefixes) or "test_suite" in f.uid:
+            continue
+        sym = None
+        sites = []
+        one_digit = False
+        for bi, blk in enumerate(f.blocks):
+            if blk["c"]:
+                continue
+            for s in blk["s"]:
+                if s[0] == "A" and s[2]["k"] == "Bin" and s[2]["op"] in ("Lt", "Le", "Gt", "Ge", "Eq", "Ne"):
+                    sym = sym or Sym(f, Flow(f))
+                    a, b = [sym.operand(o) for o in s[2]["o"]]
+                    sites.append((s[2]["op"], a, b, s[3]))
+                    for x, y in ((a, b), (b, a)):
+                        if y.is_const() and y.const_value() == 1 and any(t[0] == "f" and t[1] == "dsize" for t in x.atoms()) and len(x.t) == 1:
+                            one_digit = True
+            t = blk["t"]
+            if t and t["k"] == "Call" and (f.callee_def(t) or {}).get("n") in ("min", "max") and len(t["a"]) == 2:
+                sym = sym or Sym(f, Flow(f))
+                a, b = [sym.operand(o) for o in t["a"]]
+                sites.append(((f.callee_def(t) or {}).get("n"), a, b, t["l"]))
+        unit = dict(_UNIT)
+        if one_digit:
+            unit["dsize"] = (0, 0, 0)
+            unit["dnum"] = (1, 0, 0)
+        for op, a, b, line in sites:
+            ua, ub = _unit(a, unit), _unit(b, unit)
+            if ua in (None, "c") or ub in (None, "c"):
+                continue
+            n += 1
+            if ua != ub:
+                res.bad(rule, f.pretty, "unit-mismatch:%s:%s" % (_unit_str(ua), _unit_str(ub)),
+                        "%s combines (%s) %r [%s] with %r [%s]: limbs = rows * dsize and bits = limbs * base2k - with more than one limb per row the two sides do not count the same thing"
+                        % (f.pretty, op, a, _unit_str(ua), b, _unit_str(ub)), site=f.where(line))
+            else:
+                res.ok(rule, {"fn": f.pretty, "op": op, "unit": _unit_str(ua)} if n % 6 == 1 else None)
+    return n
